@@ -306,3 +306,42 @@ def r9(ctx, R):
     R.check(ok and exact, 'Controller.add_hook :: a hook is skipped only if an instance of exactly this class is registered already', w, 'hook not in [type(me) for me in self.hooks]  (type identity, not isinstance)', test)
     body = [ast.unparse(s) for s in (ifs[0].body if ifs else [])]
     R.check(len(body) == 1 and re.fullmatch(r'self\.(_Controller)?__hooks \+= \[hook\(\)\]', body[0]) is not None, 'Controller.add_hook :: the class is instantiated and appended once', w, 'self.__hooks += [hook()]', body)
+
+
+@rule('C14', 'C14.R10', 'post_run records come from the step that ended the run only: recording post_run callbacks are guarded by step.status.last, and restart_block clears first/last on the steps that do not take part in the block it forms', floor=2)
+def r10(ctx, R):
+    repo = ctx.repo
+    base, subs = _hooks(repo)
+    for ci in subs:
+        fn = ci.methods.get('post_run')
+        if fn is None or not _record_calls(fn):
+            continue
+        w = f'{ci.module.relpath}:{ci.name}.post_run'
+        R.fn(w)
+        cfg = FuncCFG(fn)
+        bad = []
+        defs = {ast.unparse(a.targets[0]): ast.unparse(a.value) for a in ast.walk(fn) if isinstance(a, ast.Assign) and len(a.targets) == 1}
+        n_sol = 0
+        for n, s in cfg.stmt_of.items():
+            for c in cfg.calls_at(n):
+                if isinstance(c.func, ast.Attribute) and c.func.attr in RECORD and ast.unparse(c.func.value) == 'self':
+                    val = next((ast.unparse(k.value) for k in c.keywords if k.arg == 'value'), '')
+                    for _ in range(3):
+                        val = re.sub(r'\b([A-Za-z_]\w*)\b', lambda m: f'({defs[m.group(1)]})' if m.group(1) in defs else m.group(1), val)
+                    if not re.search(r'\.uend\b|\.u\[', val):
+                        continue  # per-process quantities (timings) are legitimately recorded by every step
+                    n_sol += 1
+                    g = ' and '.join(ast.unparse(t) for t, pol in cfg.guards[id(s)] if pol)
+                    if 'step.status.last' not in g:
+                        bad.append(ast.unparse(c)[:60])
+        if not n_sol:
+            continue
+        R.check(not bad, f'{ci.name}.post_run :: every record of a solution-derived quantity is written under `step.status.last` (post_run is issued for every step of the controller)', w, 'if ... step.status.last: add_to_stats(..)', bad)
+    rel = 'pySDC/implementations/controller_classes/controller_nonMPI.py'
+    fn = repo.func(rel, 'controller_nonMPI.restart_block')
+    w = f'{rel}:controller_nonMPI.restart_block'
+    R.fn(w)
+    N = Normalizer(fn, inline_scalars=False)
+    cl = sorted(c.describe() for c in N.contribs if re.fullmatch(r'self\.MS\[.+\]\.status\.(first|last)', c.target) and c.rhs == 'False')
+    ok = len(cl) == 2 and all(re.fullmatch(r'self\.MS\[i1 - 1\]\.status\.(first|last) = \+False for i1=1\.\.len\(self\.MS\) if (len\(active_slots\) > 0 and )?i1 - 1 not in active_slots( and len\(active_slots\) > 0)?', d) for d in cl) and {d.split('.status.')[1].split(' ')[0] for d in cl} == {'first', 'last'}
+    R.check(ok, 'controller_nonMPI.restart_block :: when a block is formed, every step outside it gets first = last = False', w, 'for q in all steps: if active_slots and q not in active_slots: first = last = False', cl)
